@@ -119,7 +119,8 @@ class C08(core.Check):
         "radius 0.03..30 in a random plane, included angle (0.02, pi-0.05), flatness 1; origin_adj: flatness != 1 or a "
         "non-equidistant origin; arc3: three points on a circle with the third point strictly inside the arc, swept angle "
         "(0.05, 2*pi-0.05) away from pi; arc3_beyond: third point between the end and the antipode of the start (known "
-        "finding); flat arcs (radius 100..4000, sector angle 2e-4..1.5e-3, chord*rise >= 10 TOL) in the theta/origin/mesh streams; "
+        "finding); nearly full turns (end vertices 1.2e-4..3e-4 apart, radius 0.01..3) as Angle and as classic arcs; OnCurve edges "
+        "on unevenly spaced linear curves with inner end vertices; flat arcs (radius 100..4000, sector angle 2e-4..1.5e-3, chord*rise >= 10 TOL) in the theta/origin/mesh streams; "
         "arc_hist / mesh_hist: one Origin/Angle edge object (also inside an assembled Mesh) observed, its end vertices moved to "
         "other valid positions, observed again; curve_tf: OnCurve edges over linear/spline/discrete curves placed by translate/rotate/scale/mirror as method "
         "calls or as a transformation list; mesh: origin/angle arcs on the 12 edge positions of one or two stacked lofts in "
@@ -144,12 +145,21 @@ class C08(core.Check):
     )
 
     # ------------------------------------------------------------------ generators
-    def _theta_case(self, rng: random.Random, flat: bool = False) -> dict:
+    def _theta_case(self, rng: random.Random, flat: bool = False, nearfull: bool = False) -> dict:
         e1, e2, n = _frame(rng)
         chord = 10 ** rng.uniform(-1.3, 1.7)
         off = [rng.uniform(-10, 10) for _ in range(3)]
         r = rng.random()
-        if flat:
+        if nearfull:
+            # almost a full turn: the two end vertices are 1.2e-4..3e-4 apart (a thousand times the merging tolerance: two
+            # clearly distinct vertices) while the arc is long; radius 0.01..3; chord*diameter >= 20*TOL keeps the arc valid
+            while True:
+                R_ = 10 ** rng.uniform(-2, 0.5)
+                chord = rng.uniform(1.2e-4, 3e-4)
+                if chord * 2 * R_ >= 2e-6:
+                    break
+            theta = TWO_PI - 2 * math.asin(chord / (2 * R_))
+        elif flat:
             # a flat arc: block-sized chord, radius 100..4000, sector angle below 1.5e-3; the rise (1e-5..1e-3) is far above
             # the written precision and chord*rise is at least 10*TOL, so the arc must be kept as an arc
             while True:
@@ -194,13 +204,22 @@ class C08(core.Check):
             if (ch * sag > 1e-5 and ch > 1e-3) or (flat and ch * sag >= 1e-6 and ch <= 3.0):
                 return {"kind": "origin_adj" if adjust else "origin", "p1": p1, "p2": p2, "origin": C, "flatness": mult}
 
-    def _arc3_case(self, rng: random.Random, beyond: bool) -> dict:
+    def _arc3_case(self, rng: random.Random, beyond: bool, nearfull: bool = False) -> dict:
         e1, e2, n = _frame(rng)
         R = 10 ** rng.uniform(-1.5, 1.5)
         C = [rng.uniform(-10, 10) for _ in range(3)]
         a0 = rng.uniform(0, TWO_PI)
         sgn = rng.choice([1, -1])
-        if beyond:
+        if nearfull:
+            # a classic arc around the far side of a short chord (end points 1.2e-4..3e-4 apart)
+            R = 10 ** rng.uniform(-2, 0.5)
+            while True:
+                chord = rng.uniform(1.2e-4, 3e-4)
+                if chord * 2 * R >= 2e-6:
+                    break
+            phi = TWO_PI - 2 * math.asin(chord / (2 * R))
+            psi = rng.uniform(0.3, math.pi - 0.3)
+        elif beyond:
             phi = rng.uniform(math.pi + 0.3, TWO_PI - 0.1)
             psi = rng.uniform(math.pi + 0.05, phi - 0.05)
         else:
@@ -226,7 +245,18 @@ class C08(core.Check):
         return {"kind": "poly", "edge": rng.choice(["spline", "polyLine"]), "points": pts}
 
     def _curve_case(self, rng: random.Random) -> dict:
-        which = rng.choice(["discrete", "linear", "circle", "line"])
+        which = rng.choice(["discrete", "linear", "linear_inner", "linear_inner", "circle", "line"])
+        if which == "linear_inner":
+            # unevenly spaced interpolation points (steps over two decades), end vertices inside the curve
+            d = _unit([rng.gauss(0, 1) for _ in range(3)])
+            p = [rng.uniform(-5, 5) for _ in range(3)]
+            pts = [p]
+            for _ in range(rng.randint(3, 7)):
+                step = 10 ** rng.uniform(-1, 1)
+                p = _add(_add(p, _mul(step, d)), [rng.uniform(-0.4, 0.4) * step for _ in range(3)])
+                pts.append(p)
+            t1, t2 = rng.uniform(0.03, 0.45), rng.uniform(0.55, 0.97)
+            return {"kind": "curve", "curve": "linear_inner", "points": pts, "t": [t1, t2] if rng.random() < 0.7 else [t2, t1]}
         if which in ("discrete", "linear"):
             c = self._poly_case(rng)
             pts = c["points"]
@@ -405,6 +435,9 @@ class C08(core.Check):
         for _ in range(max(8, n // 8)):
             cases.append(self._theta_case(rng, flat=True))
             cases.append(self._origin_case(rng, False, flat=True))
+        for _ in range(max(6, n // 16)):
+            cases.append(self._theta_case(rng, nearfull=True))
+            cases.append(self._arc3_case(rng, False, nearfull=True))
         for _ in range(n // 5):
             cases.append(self._arc_hist_case(rng))
         for _ in range(max(6, n // 16)):
@@ -595,6 +628,9 @@ class C08(core.Check):
                 elif which == "linear":
                     curve = cb.LinearInterpolatedCurve(case["points"])
                     ends = (case["points"][0], case["points"][-1])
+                elif which == "linear_inner":
+                    curve = cb.LinearInterpolatedCurve(case["points"])
+                    ends = tuple(curve.get_point(t) for t in case["t"])
                 elif which == "circle":
                     curve = cb.CircleCurve(case["origin"], case["rim"], case["normal"])
                     ends = tuple(curve.get_point(t) for t in case["t"])
@@ -795,7 +831,7 @@ class C08(core.Check):
             ml = float(core.parse_rat(ans[1]))
             if kind == "curve" and case["curve"] in ("circle",):
                 return None  # analytic curve: length is a 100-point polyline, compared by C16, not here
-            if kind == "curve" and case["curve"] == "linear":
+            if kind == "curve" and case["curve"] in ("linear", "linear_inner"):
                 return None  # break points are not necessarily among the written points (C16)
             # curve edges: the end parameters come out of a numerical minimiser (accuracy about 1e-8)
             tol = 1e-6 if kind == "curve" else 1e-9
@@ -939,6 +975,9 @@ class C08(core.Check):
                 bad("ArcEdge.length", f"length {impl['length']}, arc through the three points {exp}", impl["length"], exp)
             if kind == "arc3":
                 check_desc("ArcEdge.description", case["pb"], _scale(case["pb"]))
+                area2 = _norm(_cross(_sub(case["p1"], case["pb"]), _sub(case["p2"], case["pb"])))
+                if not impl["valid"] and area2 >= 1e-6 and _norm(_sub(case["p1"], case["p2"])) >= 1e-4:
+                    bad("ArcEdgeBase.is_valid:proper-arc-dropped", f"three-point arc, end points {_norm(_sub(case['p1'], case['p2'])):.3g} apart")
             chord_bound(case["p1"], case["p2"], "arc")
             return out
         if kind == "arc3_bad":
@@ -1044,6 +1083,28 @@ class C08(core.Check):
                 return out
             # the end parameters of a curve edge come out of scipy's minimiser (accuracy about 1e-8 in the parameter)
             chord_bound(impl["ends"][0], impl["ends"][1], "curve-" + case["curve"], rel=1e-6)
+            if case["curve"] == "linear_inner":
+                # chord-length parameters: the piece between two parameters is |t2 - t1| of the whole polyline
+                pts = case["points"]
+                total = sum(_norm(_sub(a, b)) for a, b in zip(pts[:-1], pts[1:]))
+                exp = abs(case["t"][1] - case["t"][0]) * total
+                if not abs(impl["length"] - exp) <= 1e-6 * max(1.0, exp):
+                    bad(
+                        "OnCurveEdge.length:curve-linear:inner-vertices",
+                        f"length {impl['length']}, polyline between the two vertices {exp}",
+                        impl["length"],
+                        exp,
+                    )
+                # the written points run from vertex 1 to vertex 2 along the polyline: the chain is as long as the edge
+                chain = [impl["ends"][0], *impl["pts"], impl["ends"][1]]
+                got = sum(_norm(_sub(a, b)) for a, b in zip(chain[:-1], chain[1:]))
+                if not got <= exp * (1 + 1e-6) + 1e-9:
+                    bad(
+                        "OnCurveEdge.point_array:curve-linear:inner-vertices",
+                        f"the written points stop short of / run past the end vertex: chain {got}, curve between the vertices {exp}",
+                        got,
+                        exp,
+                    )
             return out
         return out
 
